@@ -28,6 +28,11 @@ Definition removes (child s : nat) (c : change) : bool :=
   | DropTable t _ => t_name t =? child
   | ModifyTable t tcs => (t_name t =? child) && existsb (tc_removes s) tcs
   end.
+(* the symbols of the live keys a table change drops, and the keys (child, symbol) a change drops explicitly *)
+Definition tc_rm (tc : tchange) : list nat :=
+  match tc with DropFK f => [f_sym f] | ModifyFK from _ => [f_sym from] | _ => [] end.
+Definition rm_keys (c : change) : list (nat * nat) :=
+  match c with ModifyTable t tcs => map (pair (t_name t)) (flat_map tc_rm tcs) | _ => [] end.
 Definition fk_entry (child : nat) (f : fkey) : nat * nat * nat := (child, f_sym f, t_name (f_ref f)).
 
 Lemma replay_app l1 l2 c :
@@ -54,8 +59,8 @@ Proof.
   destruct (replay_tc t c tc) as [c1|] eqn:E; [|discriminate].
   rewrite (IH c1 c' H). destruct tc; simpl in E.
   - destruct (mem _ _); inversion E; reflexivity.
-  - inversion E; reflexivity.
-  - destruct (mem _ _); inversion E; reflexivity.
+  - destruct (fk_live _ _ _); inversion E; reflexivity.
+  - destruct (mem _ _); [|discriminate]. destruct (fk_live _ _ _); inversion E; reflexivity.
   - inversion E; reflexivity.
 Qed.
 
@@ -99,14 +104,14 @@ Proof.
       apply in_app_or in H1. destruct H1 as [H1|[<-|[]]].
       * left. split; [exact H1|exact H2].
       * right. exists f. split; [left; reflexivity|reflexivity].
-    + inversion E; subst; simpl in *. apply filter_key_in in H1. destruct H1 as [H1 Hk].
+    + destruct (fk_live _ _ _); inversion E; subst; simpl in *. apply filter_key_in in H1. destruct H1 as [H1 Hk].
       left. split; [exact H1|].
       apply andb_false_iff in H2. apply andb_false_iff.
       destruct H2 as [H2|H2]; [left; exact H2|].
       destruct (fst (fst e) =? t) eqn:Et; [|left; reflexivity]. right.
       rewrite H2, orb_false_r. apply Nat.eqb_eq in Et. apply Nat.eqb_neq.
         intros Hs. apply Hk. split; [exact Et|symmetry; exact Hs].
-    + destruct (mem _ _); inversion E; subst; simpl in *.
+    + destruct (mem _ _); [|discriminate]. destruct (fk_live _ _ _); inversion E; subst; simpl in *.
       apply in_app_or in H1. destruct H1 as [H1|[<-|[]]].
       * apply filter_key_in in H1. destruct H1 as [H1 Hk].
         left. split; [exact H1|].
@@ -180,23 +185,63 @@ Proof.
 Qed.
 
 (** * When one step succeeds *)
+Lemma fk_live_true t s c p : In (t, s, p) (c_fks c) -> fk_live t s c = true.
+Proof.
+  intros H. unfold fk_live. apply existsb_exists. exists (t, s, p). split; [exact H|].
+  unfold fk_key_neqb. simpl. rewrite !Nat.eqb_refl. reflexivity.
+Qed.
+
+Lemma tc_removes_rm s tc : tc_removes s tc = true <-> In s (tc_rm tc).
+Proof.
+  destruct tc; simpl; try (split; [discriminate|intros []]);
+    (rewrite Nat.eqb_eq; split; [intros <-; left; reflexivity|intros [H|[]]; exact H]).
+Qed.
+
+Lemma removes_rm_keys child s x :
+  removes child s x = true -> (exists t fks, x = DropTable t fks /\ t_name t = child) \/ In (child, s) (rm_keys x).
+Proof.
+  destruct x as [t fks|t fks|t tcs]; simpl; intros H; [discriminate| |].
+  - left. exists t, fks. split; [reflexivity|apply Nat.eqb_eq; exact H].
+  - right. apply andb_true_iff in H. destruct H as [H1 H2]. apply Nat.eqb_eq in H1. subst child.
+    apply in_map. apply existsb_exists in H2. destruct H2 as [tc [Htc Hr]].
+    apply in_flat_map. exists tc. split; [exact Htc|apply tc_removes_rm; exact Hr].
+Qed.
+
+(* a ModifyTable replays when the parents of the keys it declares exist and every key it drops is live
+   and is dropped once *)
 Lemma replay_tcs_ok t : forall tcs c,
   (forall f, In f (flat_map tc_added tcs) -> In (t_name (f_ref f)) (c_tabs c)) ->
+  NoDup (flat_map tc_rm tcs) ->
+  (forall s, In s (flat_map tc_rm tcs) -> exists p, In (t, s, p) (c_fks c)) ->
   exists c', replay_tcs t c tcs = Some c'.
 Proof.
-  induction tcs as [|tc tcs IH]; intros c Hf; simpl; [eexists; reflexivity|].
-  assert (Hstep : exists c1, replay_tc t c tc = Some c1 /\ c_tabs c1 = c_tabs c).
+  induction tcs as [|tc tcs IH]; intros c Hf Hn Hl; simpl; [eexists; reflexivity|].
+  assert (Hstep : exists c1, replay_tc t c tc = Some c1 /\ c_tabs c1 = c_tabs c /\
+            (forall s p, In (t, s, p) (c_fks c) -> ~ In s (tc_rm tc) -> In (t, s, p) (c_fks c1))).
   { destruct tc as [f|f|from to|k]; simpl.
     - assert (Hm : mem (t_name (f_ref f)) (c_tabs c) = true)
         by (apply mem_In; apply Hf; simpl; left; reflexivity).
-      rewrite Hm. eexists; split; reflexivity.
-    - eexists; split; reflexivity.
+      rewrite Hm. eexists; split; [reflexivity|]. split; [reflexivity|].
+      intros s p H _. simpl. apply in_or_app. left. exact H.
+    - destruct (Hl (f_sym f)) as [p Hp]; [simpl; left; reflexivity|].
+      rewrite (fk_live_true t (f_sym f) c p Hp). eexists; split; [reflexivity|]. split; [reflexivity|].
+      intros s q H Hs. simpl. apply filter_key_in. split; [exact H|]. simpl. intros [_ E]. apply Hs. left. symmetry. exact E.
     - assert (Hm : mem (t_name (f_ref to)) (c_tabs c) = true)
         by (apply mem_In; apply Hf; simpl; left; reflexivity).
-      rewrite Hm. eexists; split; reflexivity.
-    - eexists; split; reflexivity. }
-  destruct Hstep as [c1 [E1 Et]]. rewrite E1. apply IH.
-  intros f Hin. rewrite Et. apply Hf. simpl. apply in_or_app. right. exact Hin.
+      rewrite Hm. destruct (Hl (f_sym from)) as [p Hp]; [simpl; left; reflexivity|].
+      rewrite (fk_live_true t (f_sym from) c p Hp). eexists; split; [reflexivity|]. split; [reflexivity|].
+      intros s q H Hs. simpl. apply in_or_app. left. apply filter_key_in. split; [exact H|]. simpl.
+      intros [_ E]. apply Hs. left. symmetry. exact E.
+    - eexists; split; [reflexivity|]. split; [reflexivity|]. intros s p H _. exact H. }
+  destruct Hstep as [c1 [E1 [Et Hk]]]. rewrite E1. apply IH.
+  - intros f Hin. rewrite Et. apply Hf. simpl. apply in_or_app. right. exact Hin.
+  - simpl in Hn. apply NoDup_app_r in Hn. exact Hn.
+  - intros s Hs. destruct (Hl s) as [p Hp]; [simpl; apply in_or_app; right; exact Hs|].
+    exists p. apply Hk; [exact Hp|]. intros Hs1. simpl in Hn.
+    clear -Hn Hs Hs1. induction (tc_rm tc) as [|a l IHl]; [destruct Hs1|].
+    simpl in Hn. inversion Hn; subst. destruct Hs1 as [->|Hs1].
+    + apply H1. apply in_or_app. right. exact Hs.
+    + apply IHl; assumption.
 Qed.
 
 Lemma step_add_ok st t fks :
@@ -213,9 +258,55 @@ Qed.
 Lemma step_modify_ok st t tcs :
   In (t_name t) (c_tabs st) ->
   (forall f, In f (flat_map tc_added tcs) -> In (t_name (f_ref f)) (c_tabs st)) ->
+  NoDup (flat_map tc_rm tcs) ->
+  (forall s, In s (flat_map tc_rm tcs) -> exists p, In (t_name t, s, p) (c_fks st)) ->
   exists c', replay1 st (ModifyTable t tcs) = Some c'.
 Proof.
-  intros Ht Hf. simpl. apply mem_In in Ht. rewrite Ht. apply replay_tcs_ok. exact Hf.
+  intros Ht Hf Hn Hl. simpl. apply mem_In in Ht. rewrite Ht. apply replay_tcs_ok; assumption.
+Qed.
+
+(* a live key stays live as long as nothing removes it *)
+Lemma replay_tcs_fks_lower t : forall tcs c c' e,
+  replay_tcs t c tcs = Some c' -> In e (c_fks c) ->
+  (fst (fst e) =? t) && existsb (tc_removes (snd (fst e))) tcs = false -> In e (c_fks c').
+Proof.
+  induction tcs as [|tc tcs IH]; intros c c' e H He Hr; simpl in H; [inversion H; subst; exact He|].
+  destruct (replay_tc t c tc) as [c1|] eqn:E; [|discriminate].
+  apply (IH c1 c' e H).
+  - simpl in Hr. destruct tc as [f|f|from to|k]; simpl in E.
+    + destruct (mem _ _); inversion E; subst; simpl. apply in_or_app. left. exact He.
+    + destruct (fk_live _ _ _); inversion E; subst; simpl. apply filter_key_in. split; [exact He|].
+      intros [E1 E2]. rewrite E1, Nat.eqb_refl in Hr. simpl in Hr. rewrite E2, Nat.eqb_refl in Hr. discriminate.
+    + destruct (mem _ _); [|discriminate]. destruct (fk_live _ _ _); inversion E; subst; simpl.
+      apply in_or_app. left. apply filter_key_in. split; [exact He|].
+      intros [E1 E2]. rewrite E1, Nat.eqb_refl in Hr. simpl in Hr. rewrite E2, Nat.eqb_refl in Hr. discriminate.
+    + inversion E; subst. exact He.
+  - simpl in Hr. destruct (fst (fst e) =? t); [|reflexivity]. simpl in *.
+    apply orb_false_iff in Hr. tauto.
+Qed.
+
+Lemma step_fks_lower c x c1 e :
+  replay1 c x = Some c1 -> In e (c_fks c) -> removes (fst (fst e)) (snd (fst e)) x = false -> In e (c_fks c1).
+Proof.
+  destruct x as [t fks|t fks|t tcs]; simpl; intros H He Hr.
+  - destruct (mem (t_name t) (c_tabs c)); [discriminate|].
+    destruct (forallb _ fks); inversion H; subst; simpl. apply in_or_app. left. exact He.
+  - destruct (negb (mem (t_name t) (c_tabs c))); [discriminate|].
+    destruct (existsb _ (c_fks c)); inversion H; subst; simpl.
+    apply filter_In. split; [exact He|]. apply negb_true_iff. rewrite Nat.eqb_sym. exact Hr.
+  - destruct (mem (t_name t) (c_tabs c)); [|discriminate].
+    apply (replay_tcs_fks_lower _ _ _ _ e H He). rewrite Nat.eqb_sym. exact Hr.
+Qed.
+
+Lemma after_fks_lower : forall pre c st e,
+  replay pre c = Some st -> In e (c_fks c) ->
+  (forall y, In y pre -> removes (fst (fst e)) (snd (fst e)) y = false) -> In e (c_fks st).
+Proof.
+  induction pre as [|x pre IH]; intros c st e H He Hr; simpl in H; [inversion H; subst; exact He|].
+  destruct (replay1 c x) as [c1|] eqn:E; [|discriminate].
+  apply (IH c1 st e H).
+  - apply (step_fks_lower c x c1 e E He). apply Hr. left. reflexivity.
+  - intros y Hy. apply Hr. right. exact Hy.
 Qed.
 
 Lemma step_drop_ok st t fks :
@@ -295,7 +386,10 @@ Record split_ok (l : list change) (c : cat) : Prop := {
   (* every live foreign key from another table to a dropped table is removed before *)
   so_drop : forall pre p fks post e, l = pre ++ DropTable p fks :: post -> In e (c_fks c) ->
     snd e = t_name p -> fst (fst e) <> t_name p ->
-    exists y, In y pre /\ removes (fst (fst e)) (snd (fst e)) y = true
+    exists y, In y pre /\ removes (fst (fst e)) (snd (fst e)) y = true;
+  (* a key that is dropped explicitly (DROP FOREIGN KEY / re-pointed) is live initially and dropped once *)
+  so_rm_nodup : NoDup (flat_map rm_keys l);
+  so_rm_live : forall k, In k (flat_map rm_keys l) -> exists p, In (k, p) (c_fks c)
 }.
 
 Section Split.
@@ -348,9 +442,26 @@ Section Split.
       destruct E as [c' E]. rewrite E. eexists; reflexivity.
     - (* ModifyTable *)
       assert (E : exists c', replay1 st (ModifyTable t tcs) = Some c').
-      { destruct (so_mod l c H pre t tcs post El) as [Hdr Hex]. apply step_modify_ok.
+      { destruct (so_mod l c H pre t tcs post El) as [Hdr Hex].
+        pose proof (so_rm_nodup l c H) as Hnd. rewrite El, flat_map_app in Hnd. simpl in Hnd.
+        apply step_modify_ok.
         - apply (after_tabs_lower pre c st _ Hst); [exact Hex|exact Hdr].
-        - intros f Hf. destruct (Hfk_live f Hf) as [H1|H1]; [discriminate H1|exact H1]. }
+        - intros f Hf. destruct (Hfk_live f Hf) as [H1|H1]; [discriminate H1|exact H1].
+        - apply NoDup_app_r in Hnd. apply NoDup_app_l in Hnd.
+          apply (NoDup_map_inv _ _ Hnd).
+        - intros s Hs.
+          assert (Hk : In (t_name t, s) (map (pair (t_name t)) (flat_map tc_rm tcs))) by (apply in_map; exact Hs).
+          destruct (so_rm_live l c H (t_name t, s)) as [p Hp].
+          { rewrite El, flat_map_app. apply in_or_app. right. simpl. apply in_or_app. left. exact Hk. }
+          exists p. apply (after_fks_lower pre c st _ Hst Hp). simpl.
+          intros y Hy. destruct (removes (t_name t) s y) eqn:Er; [exfalso|reflexivity].
+          destruct (removes_rm_keys _ _ _ Er) as [[t' [fks' [-> Hn]]]|Hky].
+          + apply Hdr. apply in_drops_iff. exists t', fks'. split; [exact Hy|exact Hn].
+          + assert (Hkp : In (t_name t, s) (flat_map rm_keys pre)) by (apply in_flat_map; exists y; split; assumption).
+            clear -Hnd Hkp Hk. induction (flat_map rm_keys pre) as [|a l0 IHl]; [destruct Hkp|].
+            simpl in Hnd. inversion Hnd; subst. destruct Hkp as [->|Hkp].
+            * apply H1. apply in_or_app. right. apply in_or_app. left. exact Hk.
+            * apply IHl; assumption. }
       destruct E as [c' E]. rewrite E. eexists; reflexivity.
   Qed.
 
@@ -386,6 +497,9 @@ Section Safe.
   Hypothesis Hdrop : forall p fks e, In (DropTable p fks) l -> In e (c_fks c) ->
     snd e = t_name p -> fst (fst e) <> t_name p ->
     exists y, In y l /\ removes (fst (fst e)) (snd (fst e)) y = true /\ r y < r (DropTable p fks).
+
+  Hypothesis Hrm_nodup : NoDup (flat_map rm_keys l).
+  Hypothesis Hrm_live : forall k, In k (flat_map rm_keys l) -> exists p, In (k, p) (c_fks c).
 
   Lemma adds_in_pre pre x post n y :
     l = pre ++ x :: post -> In y l -> adds y = [n] -> r y < r x -> In n (flat_map adds pre).
